@@ -1,69 +1,139 @@
 import Gms.Driver.Proto
 import Gms.Model.NonInterf
-open Gms.Proto Gms.NonInterf
+import Gms.Model.SharedStore
+open Gms.Proto Gms.NonInterf Gms.SharedStore
 
 /-
 Driver for C36. One case = one batch:
   (batch K (progs (<stmt> …) … ) (sched i i i …))
 A table query arrives as `(read <digest of its result when run alone> <sel> <warn> <info> <sql>)`:
 in the model its result is a function of the committed store only, and that function is what the
-harness measured on the store (`Db := Unit` here). Impl model = `run` on the observed schedule,
-Spec = every session's program executed alone (`seqRun`).
+harness measured on the store. Impl model = `run` on the observed schedule, Spec = every session's
+program executed alone (`seqRun`).
+
+A batch of the idx stream carries the physical storage the concurrent phase started from:
+  (ibatch K (store (tbl (rows (pk v) …) (sec (key pk idx) …)) …) (progs …) (sched …))
+and statements `(pq <table> <kind> <lo> <hi> <desc> <lim> <sel> <warn> <sql>)` whose result is
+COMPUTED from that storage (`Db := Gms.SharedStore.Store`): by the access paths of the memory
+backend in the Impl model (`pqImpl`), by the statement's meaning on the logical table in the Spec
+(`pqSpec`) — equal on consistent storage by `Gms.C36.pq_impl_eq_spec`.
 -/
 
 def strOf (bs : List UInt8) : String := String.ofList (bs.map fun b => Char.ofNat b.toNat)
 
-def parseStmt : Sexp → Option (Stmt Unit × Bool)
+def optInt? : Sexp → Option (Option Int)
+  | .atom "N" => some none
+  | .atom s => s.toInt?.map some
+  | _ => none
+
+def parseQ (kind : String) (lo hi : Option Int) (desc : Bool) (lim : Int) : Option Q :=
+  match kind with
+  | "pkr" => some (.pkr lo hi desc (if lim < 0 then none else some lim.toNat))
+  | "seq" | "srows" =>
+    match lo, hi with
+    | some l, some h => some (.srows l h)
+    | _, _ => none
+  | "srng" => some (.srng lo hi desc)
+  | "scan" => some .scan
+  | "agg" => some .agg
+  | _ => none
+
+/-- A statement: (for the Impl model, for the Spec, resolves information_schema). -/
+def parseStmt : Sexp → Option (Stmt Store × Stmt Store × Bool)
   | .list [.atom "read", .atom d, .atom sel, .atom w, .atom info, _] =>
     match w.toInt? with
-    | some wi => some (.read (fun _ => d) (sel == "1") (if wi < 0 then none else some wi.toNat), info == "1")
+    | some wi =>
+      let st : Stmt Store := .read (fun _ => d) (sel == "1") (if wi < 0 then none else some wi.toNat)
+      some (st, st, info == "1")
     | none => none
   | .list [.atom "vol", .atom sel, .atom w, .atom info, _] =>
     match w.toInt? with
-    | some wi => some (.read (fun _ => "vol") (sel == "1") (if wi < 0 then none else some wi.toNat), info == "1")
+    | some wi =>
+      let st : Stmt Store := .read (fun _ => "vol") (sel == "1") (if wi < 0 then none else some wi.toNat)
+      some (st, st, info == "1")
     | none => none
+  | .list [.atom "pq", .atom t, .atom kind, lo, hi, .atom desc, .atom lim, .atom sel, .atom w, _] =>
+    match t.toNat?, optInt? lo, optInt? hi, lim.toInt?, w.toInt? with
+    | some t, some lo, some hi, some lim, some wi =>
+      match parseQ kind lo hi (desc == "1") lim with
+      | some q =>
+        let warn := if wi < 0 then none else some wi.toNat
+        some (.read (pqImpl t q) (sel == "1") warn, .read (pqSpec t q) (sel == "1") warn, false)
+      | none => none
+    | _, _, _, _, _ => none
   | .list [.atom "setvar", v, .atom k] =>
     match v.bytes?, k.toInt? with
-    | some v, some k => some (.setVar (strOf v) k, false)
+    | some v, some k => some (.setVar (strOf v) k, .setVar (strOf v) k, false)
     | _, _ => none
   | .list [.atom "addvar", v, .atom k] =>
     match v.bytes?, k.toInt? with
-    | some v, some k => some (.addVar (strOf v) k, false)
+    | some v, some k => some (.addVar (strOf v) k, .addVar (strOf v) k, false)
     | _, _ => none
-  | .list [.atom "getvar", v] => (v.bytes?).map fun v => (.getVar (strOf v), false)
-  | .list [.atom "usedb", d] => (d.bytes?).map fun d => (.useDb (strOf d), false)
-  | .list [.atom "curdb"] => some (.curDb, false)
-  | .list [.atom "sq"] => some (.sessQuestions, false)
-  | .list [.atom "scs"] => some (.sessComSelect, false)
-  | .list [.atom "div0"] => some (.divZero, false)
-  | .list [.atom "showwarn"] => some (.showWarnings, false)
+  | .list [.atom "getvar", v] => (v.bytes?).map fun v => (.getVar (strOf v), .getVar (strOf v), false)
+  | .list [.atom "usedb", d] => (d.bytes?).map fun d => (.useDb (strOf d), .useDb (strOf d), false)
+  | .list [.atom "curdb"] => some (.curDb, .curDb, false)
+  | .list [.atom "sq"] => some (.sessQuestions, .sessQuestions, false)
+  | .list [.atom "scs"] => some (.sessComSelect, .sessComSelect, false)
+  | .list [.atom "div0"] => some (.divZero, .divZero, false)
+  | .list [.atom "showwarn"] => some (.showWarnings, .showWarnings, false)
+  | _ => none
+
+def parseRow : Sexp → Option Row
+  | .list [pk, v] =>
+    match pk.int?, optInt? v with
+    | some pk, some v => some { pk := pk, v := v }
+    | _, _ => none
+  | _ => none
+
+def parseEntry : Sexp → Option Entry
+  | .list [key, pk, idx] =>
+    match optInt? key, pk.int?, idx.nat? with
+    | some key, some pk, some idx => some { key := key, pk := pk, idx := idx }
+    | _, _, _ => none
+  | _ => none
+
+def parseTbl : Sexp → Option Phys
+  | .list [.atom "tbl", .list (.atom "rows" :: rs), .list (.atom "sec" :: es)] =>
+    match rs.mapM parseRow, es.mapM parseEntry with
+    | some rows, some sec => some { rows := rows, sec := sec }
+    | _, _ => none
   | _ => none
 
 def renderSess (results : List String) (l : Local) : String :=
   "(" ++ " ".intercalate results ++ (if results.isEmpty then "" else " ") ++ "q=" ++ toString l.questions ++ " cs=" ++ toString l.comSelect ++ ")"
 
+def handleBatch (k : String) (store : Store) (ps sched : List Sexp) : String :=
+  match k.toNat?, ps.mapM (fun s => s.items.mapM parseStmt), sched.mapM Sexp.nat? with
+  | some n, some progsI, some evs =>
+    let implA : Array (List (Stmt Store)) := (progsI.map fun l => l.map (·.1)).toArray
+    let specA : Array (List (Stmt Store)) := (progsI.map fun l => l.map (·.2.1)).toArray
+    let progs : Nat → List (Stmt Store) := fun i => implA.getD i []
+    let progsSpec : Nat → List (Stmt Store) := fun i => specA.getD i []
+    let ids := List.range n
+    -- Impl model: the interleaving on the observed schedule, statements reading the storage through
+    -- the access paths
+    let g := run n progs store evs
+    let impl := " ".intercalate (ids.map fun i => renderSess (g.sess i).results.reverse (g.sess i).loc) ++
+      " Q=" ++ toString g.questions ++ " CS=" ++ toString g.comSelect ++ " running=" ++ toString g.running
+    -- Spec: every program alone, statements meaning what they mean on the logical tables
+    let seqs := ids.map fun i => seqRun store (progsSpec i) initLocal
+    let spec := " ".intercalate (seqs.map fun r => renderSess r.1 r.2) ++
+      " Q=" ++ toString ((ids.map fun i => (progsSpec i).length).foldl (· + ·) 0) ++
+      " CS=" ++ toString ((seqs.map fun r => r.2.comSelect).foldl (· + ·) 0) ++ " running=0"
+    -- lockset verdict of the footprint model: do two sessions resolve information_schema tables?
+    let infoSessions := (progsI.filter fun l => l.any (·.2.2)).length
+    let region := if infoSessions ≥ 2 then "infoschema_assign_catalog_race" else "-"
+    if impl == spec then answer impl "=" "-" else answer impl spec region
+  | _, _, _ => answer "bad-case"
+
 def handle (p : List Sexp) : String :=
   match p with
   | [.list [.atom "batch", .atom k, .list (.atom "progs" :: ps), .list (.atom "sched" :: sched)]] =>
-    match k.toNat?, ps.mapM (fun s => s.items.mapM parseStmt), sched.mapM Sexp.nat? with
-    | some n, some progsI, some evs =>
-      let progsA : Array (List (Stmt Unit)) := (progsI.map fun l => l.map (·.1)).toArray
-      let progs : Nat → List (Stmt Unit) := fun i => progsA.getD i []
-      let ids := List.range n
-      -- Impl model: the interleaving on the observed schedule
-      let g := run n progs () evs
-      let impl := " ".intercalate (ids.map fun i => renderSess (g.sess i).results.reverse (g.sess i).loc) ++
-        " Q=" ++ toString g.questions ++ " CS=" ++ toString g.comSelect ++ " running=" ++ toString g.running
-      -- Spec: every program alone
-      let seqs := ids.map fun i => seqRun () (progs i) initLocal
-      let spec := " ".intercalate (seqs.map fun r => renderSess r.1 r.2) ++
-        " Q=" ++ toString ((ids.map fun i => (progs i).length).foldl (· + ·) 0) ++
-        " CS=" ++ toString ((seqs.map fun r => r.2.comSelect).foldl (· + ·) 0) ++ " running=0"
-      -- lockset verdict of the footprint model: do two sessions resolve information_schema tables?
-      let infoSessions := (progsI.filter fun l => l.any (·.2)).length
-      let region := if infoSessions ≥ 2 then "infoschema_assign_catalog_race" else "-"
-      if impl == spec then answer impl "=" "-" else answer impl spec region
-    | _, _, _ => answer "bad-case"
+    handleBatch k [] ps sched
+  | [.list [.atom "ibatch", .atom k, .list (.atom "store" :: ts), .list (.atom "progs" :: ps), .list (.atom "sched" :: sched)]] =>
+    match ts.mapM parseTbl with
+    | some store => handleBatch k store ps sched
+    | none => answer "bad-case"
   | _ => answer "bad-case"
 
 def main : IO Unit := runPure handle
